@@ -112,6 +112,17 @@ def gen (seed n : Nat) (tier : String) (emit : String → IO Unit) : IO Unit := 
   if tier == "thorough" then
     emit "chain 1500 lin"; emit "chain 1500 cyc"
   genSmall "c09" false emit
+  -- lasso chains of references: ids 1..t lead into a cycle t+1 -> ... -> t+c -> t+1 of objects whose
+  -- values are references; entered at the top, through an array element and through a dictionary entry
+  for t in [1, 2, 5] do
+    for c in [1, 2, 3] do
+      let g : Graph := (List.range (t + c)).map fun j =>
+        let i := j + 1
+        ((i, 0), Obj.ref (if i < t + c then i + 1 else t + 1) 0)
+      for chk in [Chk.prim Attr.dflt .integer, .any Attr.dflt, .prim ⟨none, .required⟩ .name] do
+        emit (sCase "c09" [] g chk (.ref 1 0))
+        emit (sCase "c09" [] g (.array Attr.dflt chk none) (mkArr [.int 1, .ref 1 0]))
+        emit (sCase "c09" [] g (.dict Attr.dflt (chkLOfList [(nextK, .required, chk)])) (.dict (mkDict [(nextK, .ref 1 0)])))
   let mut r := Rng.mk' (seed + 77)
   for _ in List.range n do
     let (l, r') := genCase "c09" r
